@@ -133,6 +133,21 @@ Theorem C03_setup_roles_simple : forall (l : list (signal * mplex)) mux_name,
 Proof. exact setup_roles_simple. Qed.
 Print Assumptions C03_setup_roles_simple.
 
+(* re-assigning a role on a live signal: whatever roles it had before (set by bare multiplex_setter calls or by
+   constructor-style assignments), after assigning x its is_multiplexer / mux_val are those of x alone *)
+Theorem C03_setter_last_wins : forall st ops op,
+  let s := fst (apply_op (fold_left apply_op ops st) op) in
+  m_is_mux s = fst (multiplex_setter (op_arg op)) /\ m_mux_val s = snd (multiplex_setter (op_arg op)) /\
+  m_sig s = m_sig (fst st) /\ m_grp s = m_grp (fst st) /\ m_parent s = m_parent (fst st).
+Proof. exact setter_last_wins. Qed.
+Print Assumptions C03_setter_last_wins.
+
+(* ... so it equals the signal constructed directly with x *)
+Theorem C03_setter_last_wins_fresh : forall sg x0 ops op,
+  fst (apply_op (fold_left apply_op ops (new_msignal sg x0, x0)) op) = new_msignal sg (op_arg op).
+Proof. exact setter_last_wins_fresh. Qed.
+Print Assumptions C03_setter_last_wins_fresh.
+
 (* ---------- non-vacuity ---------- *)
 
 Definition ex_u (n st sz : Z) : signal := mkSignal n st sz true false false.
